@@ -91,7 +91,7 @@ def run(pid, path, quiet=False):
                 props_m.c20_gen = orig
                 props_m.n_cases = props_m.n_cases_saved
         elif pid == 'C08':
-            obs = props_m.c08_impl(case)
+            obs = [o for o in props_m.c08_impl(case) if not o.startswith('RAISED:')]
             line = common.run_driver([props_m.c08_sexp(case)])[0]
             model = line.split('\t')[1].split('|')
             print('observed:', obs)
